@@ -241,6 +241,10 @@ def main(chk):
     c01.rule_acceptance(chk, ci1, concrete1)
     c01.rule_no_pruning(chk, ci1, concrete1)
     c01.rule_cached_entry(chk)
+    # ... and the stencils reach the query's own radius as well as the candidates': a one-sided stencil gives one-sided neighbour lists (rules shared with C01)
+    c01.rule_level_stencil(chk)
+    c01.rule_subcell_radius(chk)
+    c01.rule_every_level_searched(chk)
     ci5, classes5 = c05.nnps_classes()
     c05.rule_sorting(chk, ci5, classes5, [c.name for r, c in concrete1 if c.name != 'DictBoxSortNNPS'])
     c02.rule_scratch(chk)
